@@ -31,9 +31,10 @@ TRUSTED = [
 PROPS = {
     "C01": dict(
         title="every task execution justified, exactly once",
-        theorems={NEXT: ["C01_offer_from_staged", "C01_no_offer_unless_running_or_remediation"], JOIN: ["C07_ready_iff_satisfied"], HISTORY: ["C18_record_core_fixed"]},
+        theorems={NEXT: ["C01_offer_from_staged", "C01_no_offer_unless_running_or_remediation"], JOIN: ["C07_ready_iff_satisfied"], HISTORY: ["C18_record_core_fixed"],
+                  STATUS: ["tbl_succeeded_doors_task", "C03_fresh_start_statuses"]},
         keys=["status", "sequence", "staged", "tasks"], offers="ids",
-        prof=dict(p_items=0.0, p_retry=0.0, p_badexpr=0.0, p_join=0.9, p_join_count=0.1, p_loop=0.05, p_parallel_edge=0.05, p_cond_ctx=0.3, p_template=0.3, templates=[7, 7, 0, 5, 6]), hist=dict(p_fail=0.3, fixed_outcomes=True, p_lazy_start=0.25),
+        prof=dict(p_items=0.0, p_retry=0.0, p_badexpr=0.0, p_join=0.9, p_join_count=0.1, p_loop=0.05, p_parallel_edge=0.05, p_cond_ctx=0.3, p_template=0.3, templates=[7, 7, 0, 5, 6]), hist=dict(p_fail=0.3, fixed_outcomes=True, p_lazy_start=0.25, p_pause=0.25, p_early_resume=0.6),
         monitor="C01", unproven=["global multiset equality with the prescribed executions (C01_global) is not proved; search only"],
     ),
     "C02": dict(
@@ -42,15 +43,15 @@ PROPS = {
                            "tbl_succeeded_doors_task", "tbl_failure_covered", "tbl_failure_canceling",
                            "tbl_failed_request_total", "C10_never_succeeds", "tbl_leave_active_total"]},
         keys=["status", "sequence", "staged"], offers="ids",
-        prof=dict(p_badexpr=0.4, bad_where=["publish", "when", "publish", "retry_when", "input"], max_tasks=4), hist=dict(p_pause=0.15, p_cancel=0.08, p_task_pause=0.25, p_lifecycle=0.3),
+        prof=dict(p_badexpr=0.4, bad_where=["publish", "when", "publish", "retry_when", "input"], max_tasks=4), hist=dict(p_pause=0.15, p_cancel=0.08, p_task_pause=0.25, p_lifecycle=0.3, p_early_resume=0.3, p_first_pending=0.1),
         monitor="C02", unproven=["state invariant paused|canceled => no active record is proved only at the doors (table level), not as a history invariant"],
     ),
     "C03": dict(
         title="no stuck workflow",
-        theorems={STATUS: ["tbl_succeeded_doors_task", "tbl_failure_covered", "tbl_task_targets_have_events", "tbl_item_targets_have_events", "tbl_failed_request_total", "tbl_leave_active_total", "tbl_quiescent_resolves"], ERRORS: ["C11_update_never_raises_expr"]},
+        theorems={STATUS: ["tbl_succeeded_doors_task", "tbl_failure_covered", "tbl_task_targets_have_events", "tbl_item_targets_have_events", "tbl_failed_request_total", "tbl_leave_active_total", "tbl_quiescent_resolves", "C03_fresh_start_statuses", "C03_fresh_start_statuses_item"], ERRORS: ["C11_update_never_raises_expr"]},
         keys=["status", "staged", "sequence"], offers="ids",
         prof=dict(p_template=0.35, templates=[9, 9, 9, 9, 2, 0, 1, 3, 4, 5, 6, 7, 8]),
-        hist=dict(p_pause=0.1, p_cancel=0.05, p_rerun=0.4, p_task_pause=0.05, p_lifecycle=0.3, p_lazy_start=0.25, p_odd_terminal=0.2),
+        hist=dict(p_pause=0.1, p_cancel=0.05, p_rerun=0.4, p_task_pause=0.05, p_lifecycle=0.3, p_lazy_start=0.25, p_odd_terminal=0.2, p_first_pending=0.15, p_early_resume=0.3),
         monitor="C03", unproven=["C03_quiescent_resting (history invariant) is not proved; search only"],
     ),
     "C04": dict(
@@ -63,14 +64,15 @@ PROPS = {
         title="persist/restore unobservable",
         theorems={HISTORY: ["C05_persist_identity", "C18_history_extends"]},
         keys=None, offers="full",
-        prof=dict(p_template=0.3, templates=[8, 8, 2, 3, 0, 6]), hist=dict(p_persist=0.35, p_pause=0.05, p_rerun=0.2, p_lazy_start=0.25), monitor="C05",
+        prof=dict(p_template=0.3, templates=[8, 8, 2, 3, 0, 6], p_badexpr=0.2, bad_where=["vars", "wfinput", "vars", "output", "publish"]),
+        hist=dict(p_persist=0.35, p_pause=0.05, p_rerun=0.2, p_lazy_start=0.25, p_persist_first=0.3), monitor="C05",
         unproven=["the model has value semantics, so restore is the identity on it by construction; aliasing in the implementation is visible only to the correspondence check with persist ops and to the twin monitor"],
     ),
     "C06": dict(
         title="context = variables published by causal ancestors",
         theorems={JOIN: ["C06_delta_keys"], VALUES: ["C06_merge_later_wins", "C16_merge_preserves_values"], HISTORY: ["C18_context_fixed"]},
         keys=["contexts", "sequence", "staged", "output"], offers="full",
-        prof=dict(p_publish=0.8, p_clash=0.4, p_items=0.05, p_retry=0.05, p_template=0.35, templates=[6, 6, 6, 0, 2, 5, 7], p_null_over=0.3), hist=dict(p_fail=0.15),
+        prof=dict(p_publish=0.8, p_clash=0.4, p_items=0.05, p_retry=0.05, p_template=0.35, templates=[6, 6, 6, 0, 2, 5, 7, 13, 13], p_null_over=0.3), hist=dict(p_fail=0.15),
         monitor="C06", unproven=["C06_ctx_indices_exact (ancestor-exactness as a history invariant) not proved; search only"],
     ),
     "C07": dict(
@@ -141,19 +143,19 @@ PROPS = {
     "C16": dict(
         title="values flow unchanged; evaluation pure; internals hidden",
         theorems={VALUES: ["C16_evaluate_plain_identity", "C16_merge_preserves_values", "C16_ctx_hides_internals"], JOIN: ["C06_delta_keys"]},
-        keys=["contexts", "output"], offers="full", prof=dict(p_publish=0.8, p_odd_strings=1.0, lang_jinja=0.5, p_use_y=0.6, p_clash=0.5, p_null_over=0.5, p_template=0.1), hist=dict(p_fail=0.1),
+        keys=["contexts", "output"], offers="full", prof=dict(p_publish=0.8, p_odd_strings=1.0, lang_jinja=0.5, p_use_y=0.6, p_clash=0.5, p_null_over=0.5, p_template=0.15, templates=[13, 13, 13, 7, 6, 5, 2]), hist=dict(p_fail=0.1),
         monitor="C16", unproven=["library behaviour (ujson, YAQL, Jinja) is not modelled; search only"],
     ),
     "C17": dict(
         title="rerun re-executes only what was asked and converges",
         theorems={RERUN: ["C17_reject_active", "C17_reject_unknown", "C17_accepted_resuming", "C17_only_completed_accepted"], HISTORY: ["C18_extends_rerun"]},
-        keys=None, offers="ids", prof=dict(p_items=0.15, p_template=0.3, templates=[11, 11, 11, 0, 1, 2, 6, 9]),
+        keys=None, offers="ids", prof=dict(p_items=0.15, p_template=0.3, templates=[11, 11, 11, 12, 12, 12, 0, 1, 2, 6, 9]),
         hist=dict(p_fail=0.45, p_rerun=0.9, p_rerun_any=0.1, p_pause=0.1), monitor="C17",
         unproven=["convergence to the clean twin is relational; search only"],
     ),
     "C18": dict(
         title="history is append-only; finished records never change",
-        theorems={HISTORY: ["C18_extends_request", "C18_extends_next", "C18_extends_report", "C18_extends_render", "C18_extends_rerun", "C18_history_extends", "C18_record_core_fixed", "C18_context_fixed"], ITEMS: ["C13_completed_rows"], RETRY: ["C13_retrying_only_by_retry_event"]},
+        theorems={HISTORY: ["C18_extends_request", "C18_extends_next", "C18_extends_report", "C18_extends_render", "C18_extends_rerun", "C18_history_extends", "C18_record_core_fixed", "C18_context_fixed"], ITEMS: ["C13_completed_rows"], RETRY: ["C13_retrying_only_by_retry_event"], STATUS: ["C03_fresh_start_statuses"]},
         keys=["contexts", "routes", "sequence"], offers=None,
         prof=dict(p_items=0.25, p_join=0.7, p_loop=0.3, p_template=0.3, templates=[8, 8, 2, 0, 3]),
         hist=dict(p_fail=0.3, p_persist=0.15, p_rerun=0.3, p_dup_report=0.3, p_lazy_start=0.25),
